@@ -31,6 +31,28 @@ static RUNNING_TASKS: Lazy<DashMap<u64, u64>> = Lazy::new(DashMap::new);
 
 static CANCEL_TASKS: Lazy<DashSet<u64>> = Lazy::new(DashSet::new);
 
+/// What a pool keeps per accepted task: the result, the thread waiting for it, and the ids whose
+/// result nobody wants any more. A task carries the board of the pool that accepted it.
+#[derive(Debug, Default)]
+pub(crate) struct TaskBoard {
+    //正在等待结果的
+    waits: DashMap<u64, Arc<(Mutex<bool>, Condvar)>>,
+    //任务执行结果
+    results: DashMap<u64, Result<Option<usize>, &'static str>>,
+    no_waits: DashSet<u64>,
+}
+
+impl TaskBoard {
+    fn notify(&self, task_id: u64) {
+        if let Some((_, arc)) = self.waits.remove(&task_id) {
+            let (lock, cvar) = &*arc;
+            let mut pending = lock.lock().expect("notify task failed");
+            *pending = false;
+            cvar.notify_one();
+        }
+    }
+}
+
 /// The coroutine pool impls.
 #[repr(C)]
 #[derive(Debug)]
@@ -54,11 +76,8 @@ pub struct CoroutinePool<'p> {
     keep_alive_time: AtomicU64,
     //阻滞器
     blocker: Arc<CondvarBlocker>,
-    //正在等待结果的
-    waits: DashMap<u64, Arc<(Mutex<bool>, Condvar)>>,
-    //任务执行结果
-    results: DashMap<u64, Result<Option<usize>, &'p str>>,
-    no_waits: DashSet<u64>,
+    //results and waiters of the tasks this pool accepted
+    board: Arc<TaskBoard>,
 }
 
 impl Drop for CoroutinePool<'_> {
@@ -142,9 +161,7 @@ impl<'p> CoroutinePool<'p> {
             .local_queue(),
             keep_alive_time: AtomicU64::new(keep_alive_time),
             blocker: Arc::default(),
-            results: DashMap::new(),
-            waits: DashMap::default(),
-            no_waits: DashSet::default(),
+            board: Arc::default(),
         }
     }
 
@@ -246,11 +263,12 @@ impl<'p> CoroutinePool<'p> {
         // clean up remaining wait tasks
         // (snapshot the ids first: `notify` removes from `waits`, which must not happen
         // while iterating over it, that deadlocks on the map's shard lock)
-        let task_ids: Vec<u64> = self.waits.iter().map(|r| *r.key()).collect();
+        let task_ids: Vec<u64> = self.board.waits.iter().map(|r| *r.key()).collect();
         for task_id in task_ids {
             #[cfg(feature = "verif")]
             crate::verif::point("clean:waiter");
             _ = self
+                .board
                 .results
                 .insert(task_id, Err("The coroutine pool has stopped"));
             self.notify(task_id);
@@ -289,14 +307,15 @@ impl<'p> CoroutinePool<'p> {
     ///
     /// Allow multiple threads to concurrently submit task to the pool,
     /// but only allow one thread to execute scheduling.
-    pub(crate) fn submit_raw_task(&self, task: Task<'p>) {
+    pub(crate) fn submit_raw_task(&self, mut task: Task<'p>) {
+        task.accepted_by(&self.board);
         self.task_queue.push(task);
         self.blocker.notify();
     }
 
     /// Attempt to obtain task results with the given `task_id`.
     pub fn try_take_task_result(&self, task_id: u64) -> Option<Result<Option<usize>, &'p str>> {
-        self.results.remove(&task_id).map(|(_, r)| r)
+        self.board.results.remove(&task_id).map(|(_, r)| r)
     }
 
     /// clean the task result data.
@@ -306,7 +325,7 @@ impl<'p> CoroutinePool<'p> {
         }
         // (a cancel request for the task stays in force: giving up the result of a task that
         // was cancelled before it started must not let it run after all)
-        _ = self.no_waits.insert(task_id);
+        _ = self.board.no_waits.insert(task_id);
     }
 
     /// Use the given `task_id` to obtain task results, and if no results are found,
@@ -351,11 +370,11 @@ impl<'p> CoroutinePool<'p> {
                 }
             }
         }
-        let arc = if let Some(arc) = self.waits.get(&task_id) {
+        let arc = if let Some(arc) = self.board.waits.get(&task_id) {
             arc.clone()
         } else {
             let arc = Arc::new((Mutex::new(true), Condvar::new()));
-            assert!(self.waits.insert(task_id, arc.clone()).is_none());
+            assert!(self.board.waits.insert(task_id, arc.clone()).is_none());
             arc
         };
         #[cfg(feature = "verif")]
@@ -367,7 +386,7 @@ impl<'p> CoroutinePool<'p> {
             return Ok(r);
         }
         if PoolState::Stopped == self.state() {
-            _ = self.waits.remove(&task_id);
+            _ = self.board.waits.remove(&task_id);
             return Ok(Err("The coroutine pool has stopped"));
         }
         #[cfg(feature = "verif")]
@@ -484,18 +503,21 @@ impl<'p> CoroutinePool<'p> {
     fn try_run(&self) -> Option<()> {
         self.task_queue.pop().map(|task| {
             let task_id = task.id();
+            // the task may have been accepted by another pool (shared queue, stealing): its result
+            // and its waiter live on that pool's board
+            let board = task.board().unwrap_or_else(|| self.board.clone());
             #[cfg(feature = "verif")]
             crate::verif::point("run:popped");
             if CANCEL_TASKS.contains(&task_id) {
                 _ = CANCEL_TASKS.remove(&task_id);
                 warn!("Cancel task:{} successfully !", task_id);
                 // the task will never run: settle whoever waits for it
-                if self.no_waits.contains(&task_id) {
-                    _ = self.no_waits.remove(&task_id);
+                if board.no_waits.contains(&task_id) {
+                    _ = board.no_waits.remove(&task_id);
                     return;
                 }
-                _ = self.results.insert(task_id, Err("The task was cancelled"));
-                self.notify(task_id);
+                _ = board.results.insert(task_id, Err("The task was cancelled"));
+                board.notify(task_id);
                 return;
             }
             if let Some(co) = SchedulableCoroutine::current() {
@@ -507,27 +529,22 @@ impl<'p> CoroutinePool<'p> {
             #[cfg(feature = "verif")]
             crate::verif::point("run:done");
             _ = RUNNING_TASKS.remove(&task_id);
-            if self.no_waits.contains(&task_id) {
-                _ = self.no_waits.remove(&task_id);
+            if board.no_waits.contains(&task_id) {
+                _ = board.no_waits.remove(&task_id);
                 return;
             }
             assert!(
-                self.results.insert(task_id, result).is_none(),
+                board.results.insert(task_id, result).is_none(),
                 "The previous result was not retrieved in a timely manner"
             );
             #[cfg(feature = "verif")]
             crate::verif::point("run:inserted");
-            self.notify(task_id);
+            board.notify(task_id);
         })
     }
 
     fn notify(&self, task_id: u64) {
-        if let Some((_, arc)) = self.waits.remove(&task_id) {
-            let (lock, cvar) = &*arc;
-            let mut pending = lock.lock().expect("notify task failed");
-            *pending = false;
-            cvar.notify_one();
-        }
+        self.board.notify(task_id);
     }
 
     /// Try to cancel a task.
